@@ -61,6 +61,7 @@ Proof. vm_compute. reflexivity. Qed.
 (* ------------------------------------------------------------------ order *)
 Theorem convert_order c :
   convert_ops c =
+    if same_file c then [] else
     ReadAll (in_path c) ::
     match k_saved c with
     | Raise _ => []
@@ -68,7 +69,7 @@ Theorem convert_order c :
               else [OpenTrunc (out_path c)]
     end.
 Proof.
-  unfold convert_ops, convert_events.
+  unfold convert_ops, convert_events. destruct (same_file c); [reflexivity|].
   destruct (k_saved c) as [b|x]; [|reflexivity].
   destruct (k_outdir_ok c); destruct (k_untrusted c); reflexivity.
 Qed.
@@ -84,14 +85,23 @@ Proof. unfold convert_run. cbn [fst]. apply ops_of_filter. Qed.
 
 (* dumps raised: the exception escapes, and at no moment is anything created,
    changed or removed - in particular the output *)
+(* the output is the input itself: refused before anything is read, logged or written *)
+Theorem convert_same_file_refused c :
+  same_file c = true -> convert_run c = ([], CExc EValue) /\ convert_ops c = [].
+Proof.
+  intros H. unfold convert_ops, convert_run, convert_events. rewrite H. split; reflexivity.
+Qed.
+
 Theorem convert_failure_inert e c x :
   k_saved c = Raise x ->
-  snd (convert_run c) = CExc x
+  (same_file c = false -> snd (convert_run c) = CExc x)
   /\ forall st pre, crash_of (convert_ops c) pre -> apply_ops e st pre = st.
 Proof.
   intros H. split.
-  - unfold convert_run, convert_events. rewrite H. reflexivity.
+  - intros NS. unfold convert_run, convert_events. rewrite NS, H. reflexivity.
   - intros st pre C. rewrite convert_order, H in C.
+    destruct (same_file c).
+    { apply ops_of_crash_nil in C. subst. reflexivity. }
     apply apply_ops_nonmutating.
     inversion C as [ops E1 E2 | op' ops pre0 C' E1 E2 | q ch ch' ops Hc E1 E2]; subst; [reflexivity|].
     apply ops_of_crash_nil in C'. subst. reflexivity.
@@ -99,13 +109,14 @@ Qed.
 
 (* the input is never written when the output is another file *)
 Theorem convert_input_untouched e c :
-  out_path c <> in_path c ->
   forall st pre, crash_of (convert_ops c) pre ->
     fget (in_path c) (files (apply_ops e st pre)) = fget (in_path c) (files st).
 Proof.
-  intros NE st pre C. apply (crash_untouched e (convert_ops c)); [|exact C].
-  assert (N : path_eqb (in_path c) (out_path c) = false) by (apply path_eqb_neq; congruence).
-  rewrite convert_order. destruct (k_saved c) as [b|x]; [|reflexivity].
+  intros st pre C. apply (crash_untouched e (convert_ops c)); [|exact C].
+  rewrite convert_order. unfold same_file. destruct (path_eqb (out_path c) (in_path c)) eqn:SF; [reflexivity|].
+  assert (N : path_eqb (in_path c) (out_path c) = false).
+  { destruct (path_eqb (in_path c) (out_path c)) eqn:E; [|reflexivity]. apply path_eqb_eq in E. rewrite E, path_eqb_refl in SF. discriminate. }
+  destruct (k_saved c) as [b|x]; [|reflexivity].
   destruct (k_outdir_ok c); unfold untouched_by; cbn [forallb touches]; rewrite N; reflexivity.
 Qed.
 
@@ -116,17 +127,17 @@ Definition cfits (c : ccfg) (st : fs) : bool :=
 
 (* success: the output holds exactly the bytes dumps returned, nothing else changed *)
 Theorem convert_completes e c st b :
-  cfits c st = true -> k_saved c = Ok b -> k_outdir_ok c = true ->
+  cfits c st = true -> same_file c = false -> k_saved c = Ok b -> k_outdir_ok c = true ->
   let fin := apply_ops e st (convert_ops c) in
   snd (convert_run c) = CDone
   /\ errs_of e st (convert_ops c) = [None; None; None; None]
   /\ (forall p, fget p (files fin) = if path_eqb p (out_path c) then Some b else fget p (files st))
   /\ dirs fin = dirs st.
 Proof.
-  intros F S OK. cbn zeta.
+  intros F NS S OK. cbn zeta.
   unfold cfits in F. apply andb_true_iff in F as [F F3]. apply andb_true_iff in F as [F1 F2].
   apply negb_true_iff in F3. apply Bool.eqb_prop in F2. rewrite OK in F2. symmetry in F2.
-  rewrite convert_order, S, OK.
+  rewrite convert_order, NS, S, OK.
   destruct (write_file_run e st (out_path c) b F3 F2) as [R1 R2].
   set (W := [OpenTrunc (out_path c); Append (out_path c) b; Close (out_path c)]) in *.
   change (apply_ops e st (ReadAll (in_path c) :: W)) with (apply_ops e (step e st (ReadAll (in_path c))) W).
@@ -134,7 +145,7 @@ Proof.
     with (op_err e st (ReadAll (in_path c)) :: errs_of e (step e st (ReadAll (in_path c))) W).
   rewrite step_ReadAll, R1, R2.
   repeat split.
-  - unfold convert_run, convert_events. rewrite S, OK. reflexivity.
+  - unfold convert_run, convert_events. rewrite NS, S, OK. reflexivity.
   - unfold op_err. cbn [apply_op]. rewrite F1. reflexivity.
   - intros p. cbn [files]. apply write_file_get.
 Qed.
@@ -148,12 +159,13 @@ Definition warnings (evs : list cev) : list pstr :=
    that list, and there is never a second one *)
 Theorem convert_warning_iff c :
   warnings (fst (convert_run c)) =
+    if same_file c then [] else
     match k_saved c, k_untrusted c with
     | Ok _, _ :: _ => [warn_text c]
     | _, _ => []
     end.
 Proof.
-  unfold convert_run, convert_events.
+  unfold convert_run, convert_events. destruct (same_file c); [reflexivity|].
   destruct (k_verbosity c) as [|[|v]]; destruct (k_saved c) as [b|x];
     destruct (k_outdir_ok c); destruct (k_untrusted c) as [|n ns]; reflexivity.
 Qed.
@@ -178,28 +190,27 @@ Section Oracle.
   (* the archive written is dumps(obj); loading it while trusting exactly what
      the audit reports gives an equivalent object (second half: the premise) *)
   Theorem convert_equiv e c st o b :
-    cfits c st = true -> k_saved c = dumps o -> dumps o = Ok b -> k_outdir_ok c = true ->
+    cfits c st = true -> same_file c = false -> k_saved c = dumps o -> dumps o = Ok b -> k_outdir_ok c = true ->
     fget (out_path c) (files (apply_ops e st (convert_ops c))) = Some b
     /\ exists o', loads b (untrusted b) = Ok o' /\ equiv o' o.
   Proof.
-    intros F S D OK. rewrite D in S.
-    destruct (convert_completes e c st b F S OK) as (_ & _ & G & _). cbn zeta in G.
+    intros F NS S D OK. rewrite D in S.
+    destruct (convert_completes e c st b F NS S OK) as (_ & _ & G & _). cbn zeta in G.
     split; [rewrite G, path_eqb_refl; reflexivity | apply roundtrip; exact D].
   Qed.
 End Oracle.
 
-(* ----------------------------------------------------------- refutation *)
-(* "leaves the input unchanged" at full strength is false: when the default
-   output name is the input itself (a pickle file named x.skops, in the cwd) the
-   input is replaced by the archive *)
+(* ----------------------------------------------------------- the former D29 witness *)
+(* the default output name is the input itself (a pickle file named x.skops, in the cwd): before the repair the
+   input was replaced by the archive; now the call is refused and nothing is touched *)
 Definition clobber_cfg : ccfg := mkccfg [s "S"; s "cwd"] (s "m.skops") None 0 (Ok [9; 9]) [] true.
 Definition clobber_fs : fs := mkfs [([s "S"; s "cwd"; s "m.skops"], [1])] [[]; [s "S"]; [s "S"; s "cwd"]].
-Theorem convert_input_clobber_refuted :
+Theorem convert_input_clobber_repaired :
   cfits clobber_cfg clobber_fs = true
   /\ out_path clobber_cfg = in_path clobber_cfg
-  /\ fget (in_path clobber_cfg) (files (apply_ops (mkenv None) clobber_fs (convert_ops clobber_cfg)))
-     <> fget (in_path clobber_cfg) (files clobber_fs).
-Proof. vm_compute. repeat split; try reflexivity. discriminate. Qed.
+  /\ convert_run clobber_cfg = ([], CExc EValue)
+  /\ apply_ops (mkenv None) clobber_fs (convert_ops clobber_cfg) = clobber_fs.
+Proof. vm_compute. repeat split; reflexivity. Qed.
 
 (* the hypotheses of the theorems above are satisfiable: explicit output, default
    output, an object that cannot be persisted *)
